@@ -26,6 +26,9 @@ def run(tier: str, keep: bool = False) -> int:
     r.solo("options", "S", 'Numbered({ [SoloBase(2, 1, n) EXCEPT !.mdOnly = o, !.mode = m, !.msgs = g, !.xopts = x, !.maxPkt = mp] : '
                            'n \\in {0, 2}, o \\in BOOLEAN, m \\in {"ACK", "UNACK"}, g \\in {<<>>, << <<1, 2>> >>}, mp \\in {24, 512}, '
                            'x \\in {<<>>, %s, SubSeq(%s, 2, 3), SubSeq(%s, 1, 1)} })' % (XO, XO, XO), ["poll"], 6, props, pre=[["put"]])
+    # the ACK of the Finished PDU, also when the sender has cancelled in the meantime (its EOF carries another condition code)
+    r.solo("ackfin", "S", 'Numbered({ [SoloBase(2, 1, n) EXCEPT !.closure = c] : n \\in {0, 1}, c \\in BOOLEAN })',
+           ["poll", "cancel", "fin", "ack", "tick"], 6 if q else 7, props, pre=[["put"], ["poll"]])
     r.schedules("pair", 'FamAll(2, {0, 1, 3}, {"CRC32", "NULL"})', ["C02", "C07", "C10"], K=0)
     r.schedules("pairopts", '{ [c EXCEPT !.xopts = %s, !.msgs = << <<1, 2, 3>> >>] : c \\in FamAll(2, {1}, {"CRC32"}) }' % XO,
                 ["C02", "C07", "C10", "C15"], K=0)
